@@ -77,10 +77,12 @@ SITES = [
         '{doubleretval=0.0;for(constauto&e:bases){constautofid=toIndexPartial(e.tag,space,value);constautoaid=toIndexPartial(e.actionTag,actions,action);retval+=e.values(fid,aid);}returnretval;}': None}),
     ('dirichletLogSpace', 'include/AIToolbox/Utils/Probability.hpp', r'void\s+sampleDirichletDistribution\s*\(\s*const\s+TIn\s*&\s*params\s*,\s*G\s*&\s*generator\s*,\s*TOut\s*&&\s*out\s*\)\s*\{', {
         '{assert(params.size()==out.size());doublesum=0.0;for(size_ti=0;i<static_cast<size_t>(params.size());++i){std::gamma_distribution<double>dist(params[i],1.0);out[i]=dist(generator);sum+=out[i];}out/=sum;}': False,
-        '{assert(params.size()==out.size());doublemax=-std::numeric_limits<double>::infinity();for(size_ti=0;i<static_cast<size_t>(params.size());++i){out[i]=sampleLogGammaDistribution(params[i],generator);max=std::max(max,out[i]);}doublesum=0.0;for(size_ti=0;i<static_cast<size_t>(params.size());++i){out[i]=std::exp(out[i]-max);sum+=out[i];}out/=sum;}': True}),
+        '{assert(params.size()==out.size());doublemax=-std::numeric_limits<double>::infinity();for(size_ti=0;i<static_cast<size_t>(params.size());++i){out[i]=sampleLogGammaDistribution(params[i],generator);max=std::max(max,out[i]);}doublesum=0.0;for(size_ti=0;i<static_cast<size_t>(params.size());++i){out[i]=std::exp(out[i]-max);sum+=out[i];}out/=sum;}': True,
+        '{assert(params.size()==out.size());doublesum=0.0;for(size_ti=0;i<static_cast<size_t>(params.size());++i){std::gamma_distribution<double>dist(params[i],1.0);out[i]=dist(generator);sum+=out[i];}if(sum==0.0){doublemax=-std::numeric_limits<double>::infinity();for(size_ti=0;i<static_cast<size_t>(params.size());++i){out[i]=sampleLogGammaDistribution(params[i],generator);max=std::max(max,out[i]);}for(size_ti=0;i<static_cast<size_t>(params.size());++i){out[i]=std::exp(out[i]-max);sum+=out[i];}}out/=sum;}': 'fallback'}),
     ('betaLogSpace', 'include/AIToolbox/Utils/Probability.hpp', r'double\s+sampleBetaDistribution\s*\(\s*double\s+a\s*,\s*double\s+b\s*,\s*G\s*&\s*generator\s*\)\s*\{', {
         '{std::gamma_distribution<double>dista(a,1.0);std::gamma_distribution<double>distb(b,1.0);constautoX=dista(generator);constautoY=distb(generator);returnX/(X+Y);}': False,
-        '{constautologX=sampleLogGammaDistribution(a,generator);constautologY=sampleLogGammaDistribution(b,generator);constautom=std::max(logX,logY);constautoX=std::exp(logX-m);constautoY=std::exp(logY-m);returnX/(X+Y);}': True}),
+        '{constautologX=sampleLogGammaDistribution(a,generator);constautologY=sampleLogGammaDistribution(b,generator);constautom=std::max(logX,logY);constautoX=std::exp(logX-m);constautoY=std::exp(logY-m);returnX/(X+Y);}': True,
+        '{std::gamma_distribution<double>dista(a,1.0);std::gamma_distribution<double>distb(b,1.0);autoX=dista(generator);autoY=distb(generator);if(X+Y==0.0){constautologX=sampleLogGammaDistribution(a,generator);constautologY=sampleLogGammaDistribution(b,generator);constautom=std::max(logX,logY);X=std::exp(logX-m);Y=std::exp(logY-m);}returnX/(X+Y);}': 'fallback'}),
     # round 4: helpers one level down the call graph of the anchored code (a wrong helper breaks a sampler
     # indirectly): tolerance comparisons, the matrix overloads of isProbability, index arithmetic, the Seeder
     ('checkEqualSmall', 'include/AIToolbox/Utils/Core.hpp', r'inline\s+bool\s+checkEqualSmall\s*\(\s*const\s+double\s+a\s*,\s*const\s+double\s+b\s*\)\s*\{', {
@@ -139,7 +141,7 @@ def gen_c08_variant():
     # fixes/C08-6: when Dirichlet/Beta use the log-space helper, the helper must be the form the harness replays
     vals = {n: v for n, v, _r, _l in rows}
     if vals.get('dirichletLogSpace') != vals.get('betaLogSpace'):
-        errs.append('sampleDirichletDistribution and sampleBetaDistribution are in different (plain / log-space) forms')
+        errs.append('sampleDirichletDistribution and sampleBetaDistribution are in different (plain / log-space / fallback) forms')
     elif vals.get('dirichletLogSpace'):
         try:
             hb, _ = _body(srcs[HPP], r'double\s+sampleLogGammaDistribution\s*\(\s*const\s+double\s+shape\s*,\s*G\s*&\s*generator\s*\)\s*\{', 'sampleLogGammaDistribution')
@@ -160,7 +162,10 @@ def gen_c08_variant():
         if val is None:
             out.append(f'def {nm}Modelled : Bool := true')
         else:
-            out.append(f'def {nm} : Bool := {"true" if val else "false"}')
+            out.append(f'def {nm} : Bool := {"true" if val is True else "false"}')
+            if nm in ('dirichletLogSpace', 'betaLogSpace'):
+                out.append('/-- fixes/C08-8: plain gamma draws, log-space redraw only when every draw underflowed to 0 -/')
+                out.append(f'def {nm.replace("LogSpace", "UnderflowFallback")} : Bool := {"true" if val == "fallback" else "false"}')
     out += ['', 'end AITB.Gen.C08', '']
     E.write_if_changed('C08Variant', '\n'.join(out))
 
